@@ -18,11 +18,24 @@ THEOREMS = [
     "C20.numbered_point_complete_from_write",
     "C20.restore_crash_no_fs_change",
     "C20.restore_after_crash_then_continue",
+    "C20.restore_after_crash_then_continue_later_ms",
+    "C20.reopen_on_any_directory",
+    "C20.freeSeq_free",
     "C20.reopen_same_ms_aliases_counterexample",
+    "C20.reopen_preserves_files_fixed",
+    "C20.reopen_same_ms_reuses_retired_id_counterexample",
     "C20.restore_reproduces_needs_encodable_counterexample",
     "C20.numbered_point_needs_encodable_counterexample",
+    "C20.split_write_expand",
+    "C20.checkpointStepsK_refine",
+    "C20.crashAtK_eq_crashFs",
+    "C20.crash_inside_write_all_or_error",
+    "C20.crash_inside_write_preserves_earlier",
+    "C20.killed_inside_write_file",
+    "C20.killed_inside_write_exact",
+    "C20.split_write_transparent",
 ]
-LEAN_TARGETS = ["RreModel.C20.Theorems", "RreModel.C20.Theorems2"]
+LEAN_TARGETS = ["RreModel.C20.Theorems", "RreModel.C20.Theorems2", "RreModel.C20.Theorems3"]
 N = {"quick": 6000, "thorough": 60000}
 EXHAUSTIVE = {"quick": False, "thorough": False}
 RULE = ("cases = corpus + every sequence of length <=3 (thorough: <=4) over the alphabet {put, put_with_ttl, update, delete, "
@@ -48,6 +61,29 @@ RULE = ("cases = corpus + every sequence of length <=3 (thorough: <=4) over the 
         "later and puts / checkpoints / restores ids of both lives. The model predicts, from Model.checkpointSteps / restoreSteps "
         "(the list the theorems quantify over), whether the child dies, the label of the fatal point, the directory, every restore "
         "outcome and the whole second life; Spec.killOk / runOk2 judge the implementation's observations. "
+        "+ a SAME-MILLISECOND RESTART family (kind Q, fix-C20b; 12 histories x 7 kills, thorough 60): the first life takes 0..2 "
+        "checkpoints and dies in / exits after the next one at a point where its state.json exists (create, inside the write, "
+        "write, push, stamp, past the end), the clock is NOT advanced, and the new store on that directory - whose checkpoint_seq "
+        "restarts at 0 - takes one or two checkpoints and restores every id of both lives: its ids must be new "
+        "(`ids_distinct_across_restart`), every earlier file unchanged (`earlier_life_checkpoint_changed`), every restore its own "
+        "state; the model predicts the skipped-to ids from Model.freeSeq. "
+        "+ a SPLIT-WRITE family (kind Q, op W<p>.<sel>.<a>; 14 fixed + 5 random histories, thorough 40 random: empty store, one "
+        "key, earlier checkpoints with and without a retention victim, max_checkpoints 0, multi-byte / escaped / 2.8 kB strings, "
+        "f64::MAX / i64::MIN / subnormal numbers, objects, a 70-level nest, a value that does not read back): the hook "
+        "`verif_crash::arm_split` makes the real checkpoint carry out its one `write_all(json)` as write_all(&json[..k]) - crash "
+        "point `partial` - write_all(&json[k..]) and the child is killed there, so the truncated state.json the parent restores "
+        "from is PRODUCED BY A REAL KILL inside the write. k is chosen from the real bytes by a selector: EVERY offset 0..len of "
+        "files <= 64 bytes; for larger files 33 evenly spread offsets incl. 0 and len, offsets 1 and len-1, three offsets inside "
+        "a multi-byte character, three inside a number, two behind a backslash; per history also the points before / after the "
+        "split (3, 5, 6) and past the end (the split write must leave the same complete file); the fatal checkpoint of every "
+        "history of the REAL-KILL family above is killed inside its write at the same spread of offsets of ITS file too. The chooser saves the text the "
+        "child was writing beside the directory; the parent checks that the file the dead child left is byte for byte its first "
+        "k bytes (`partial_write_not_a_prefix`), REBUILDS the same truncation point the way the crash analysis K does (fs::write "
+        "of those k bytes into a scratch copy) and requires the same restore outcome from both "
+        "(`reconstruction_disagrees_with_real_kill`: the check that the reconstructed family speaks about states a crash really "
+        "produces); the outcome itself must be the complete state or an error with the sentinel store untouched "
+        "(`interrupted_partial_state`, `failed_restore_changed_store`), and the model predicts it from Model.checkpointStepsK / "
+        "crashAtK (strict prefix: parse error, Codec.Lawful.prefix_fails; all bytes: the complete state). "
         "VALUES: the value table has 27 entries - 0..9 ordinary; 10..19 edge values JSON still carries exactly (-0.0, f64::MAX, "
         "5e-324, i64::MIN, a 2.8 kB string with 2- and 4-byte characters, a string of control characters / U+2028 / U+FEFF / literal "
         "`\\ud800`, Value::Expression, an object with the keys \"\", `a.b`, `a/b\\0`, `Number` and a 9-level nested member, and two "
@@ -80,8 +116,14 @@ TRUSTED = [
     "file-system steps (create_dir_all, File::create, each write of a prefix, unlink, rmdir) are atomic and succeed; a crash leaves a prefix "
     "of the code's step sequence (no reordering by the OS, no torn directory entries, the page cache survives: the PROCESS is killed, not "
     "the machine). The numbered crash points (one before the first and one after every effect of checkpoint / restore) are produced by "
-    "really killing a child process at the cfg(rre_verif) hook `verif_crash` and compared with Model.checkpointSteps; the states INSIDE "
-    "write_all (every byte offset) and inside remove_dir_all are rebuilt by the harness in the model's step order, not produced by a kill",
+    "really killing a child process at the cfg(rre_verif) hook `verif_crash` and compared with Model.checkpointSteps; a state INSIDE "
+    "write_all is produced by a real kill too, for one split offset per child (hook `arm_split`: two write_all calls around a crash point; "
+    "the guard-on unarmed path and the guard-off build make the single write_all of the code) - what remains assumed there is that "
+    "write_all(&b[..k]); write_all(&b[k..]) passes through the same file contents as write_all(b) (Theorems3.split_write_expand in the "
+    "model; std's write_all is a loop of write calls). The crash analysis K (EVERY byte offset of every analysed file) still rebuilds its "
+    "states; the split-write family checks on 1 500 - 2 000 real kills per run that a rebuilt truncation point and the really produced one are the "
+    "same bytes and restore alike. The retention clean-up is ONE fs::remove_dir_all call: the state 'state.json unlinked, directory still "
+    "there' exists only inside that std call (no place for a crash point; points `drop` before / `rmtree` after only) and stays rebuilt",
     "harness/src/bin/c20.rs, Driver/C20.lean parsing/printing glue, check.py diff; the cfg(rre_verif) clock override in streaming/state.rs",
     "Spec.lean (runtime oracle) is the observation-level transcription of the theorems; it is additionally evaluated on the model's own "
     "observations every run (extra check), not proved equivalent",
@@ -96,15 +138,21 @@ ASSUMPTIONS = [
     "error and nothing changes (restore_reproduces second branch, ..._needs_encodable_counterexample): the property's first sentence "
     "is NOT met for a store holding NaN / +-inf / a value nested > 63 levels, its last sentence (complete state or error) is",
     "restore after a crash is performed by any store that sees the directory (the theorem quantifies over the restoring store)",
-    "a store reopened on a directory another store left: restore_after_crash_then_continue assumes the clock reads a LATER millisecond than "
-    "every surviving directory's (checkpoint_seq restarts at 0 and the directory is not consulted: reopened within the same millisecond "
-    "the new store reuses - and overwrites - the earlier life's ids, finding F-C20b, reopen_same_ms_aliases_counterexample)",
+    "a store reopened on a directory another store left (after fix-C20b: checkpoint() advances its sequence number past every id whose "
+    "state.json exists): restore_after_crash_then_continue / reopen_on_any_directory hold for ANY clock reading and ANY directory content, "
+    "for the checkpoint FILES - no file is overwritten, no id names an existing file (before the fix: reopen_same_ms_aliases_counterexample). "
+    "Residual (open, F-C20b): the directory does not remember ids whose file is gone - an id retired by retention, or the empty directory "
+    "of a checkpoint that died before File::create - so within the same millisecond such an id can be handed out again "
+    "(reopen_same_ms_reuses_retired_id_counterexample; nothing on disk is damaged); restore_after_crash_then_continue_later_ms (clock "
+    "moved to a later millisecond) still excludes that too",
 ]
 
 
 def classify(case, impl, model, oracle, kind):
     if kind == "oracle":
-        # F-C20b: a store reopened in the millisecond of an earlier life's checkpoint reuses its id (kind Q without a clock advance)
+        # F-C20b (fixed by fix-C20b): `ids_distinct_across_restart` = a store reopened in the millisecond of an earlier life's checkpoint
+        # reuses the id of a checkpoint that is still on disk; residual (open): `vanished_id_reused_across_restart` = it reuses an id whose
+        # file is gone (retired by retention / died before File::create) - kind Q without a clock advance, not generated
         return "oracle:" + oracle.split("@")[0].replace("fail ", "")
     return "diff"
 
@@ -135,10 +183,20 @@ LEVEL_TEXT = ("Lean 4 theorems (kernel-checked, unbounded: every codec meeting t
               "list: checkpointSteps_refine, crashAt_eq_crashFs; crash_at_any_point_preserves_earlier / _all_or_error for every history "
               "and every point index), restore never writes (restore_crash_no_fs_change), and a store reopened on the directory a dead "
               "process left keeps restore_reproduces / ids_distinct and never touches a surviving directory "
-              "(restore_after_crash_then_continue, hypothesis: the clock has moved to a later millisecond); these points are tied to the "
-              "code by really killing a child process at each of them.")
+              "(restore_after_crash_then_continue / reopen_on_any_directory: after fix-C20b for ANY clock reading and ANY directory, about "
+              "the checkpoint files - Model.freeSeq, freeSeq_free; the pre-fix statement with the later-millisecond hypothesis is kept as "
+              "restore_after_crash_then_continue_later_ms); these points are tied to the "
+              "code by really killing a child process at each of them. Part 3: the crash point INSIDE write_all (hook arm_split, "
+              "Model.checkpointStepsK / crashAtK): for every split offset k and every point p the extended list expands to the same "
+              "byte-granular sequence (split_write_expand, checkpointStepsK_refine, crashAtK_eq_crashFs), so crash_inside_write_all_or_error "
+              "and crash_inside_write_preserves_earlier hold for every history; killed_inside_write_file / _exact say what is on disk at "
+              "the interior point (exactly the first k bytes) and what a restore of it yields (k < len: parse error and no change; "
+              "k >= len: the complete state); split_write_transparent: the split changes nothing at the other points. Tied to the code by "
+              "killing a child inside the real write at a spread of offsets of every history's file.")
 LEVEL_NOTE = ("Partial by design (DESIGN §8): file-system steps assumed atomic and the serde_json prefix contract assumed (both exercised, "
-              "not proved); the numbered crash points between the effects are produced by killing a real child process, the states inside "
-              "write_all / remove_dir_all are reconstructed in the model's step order; a machine crash (lost page cache) is out of scope. "
+              "not proved); the numbered crash points between the effects and one point inside write_all per child (any byte offset) are produced by "
+              "killing a real child process; the every-offset crash analysis K and the state inside remove_dir_all (one std call, no hook "
+              "point possible) are reconstructed in the model's step order, and the reconstruction is compared with the real partial writes; "
+              "a machine crash (lost page cache) is out of scope. "
               "Model follows the code after fix-C20 (sequence suffix); the pre-fix id scheme is refuted in Lean by three counterexamples.")
 DESIGN_REF = "§6 C20"
